@@ -162,7 +162,7 @@ CHECKS = {
         technique='symbolic execution of the real decoder, of the real Intel and AT&T renderers in render mode (symbolic numbers as placeholder numerals) and of the real matching parsers; membership of the original bytes among the candidates as an SMT validity query (z3)',
         text='Partial claim (the miasmX-parser clause). On every path of the symbolic decoder exploration both renderings of the decoded instruction are produced by the real printer with every immediate / displacement symbolic, '
              'each is fed to the matching real parser (asm / asm_att) and the original bytes must be among the candidates for ALL byte values of the path - so operand order, size suffixes, sigils, memory layout and the fsub/fdiv reversal are exercised. '
-             'A miss is reported only for canonical encodings: objdump's text of the original bytes at the witness, assembled by GNU as, yields exactly those bytes (a criterion that does not look at miasmX's rendering). Arbiter level (labelled): at one witness per operand shape, for instructions a compiler emits, GNU as must accept the rendering in the matching syntax mode and objdump must read its encoding as the same instruction as the original bytes.',
+             'A miss is reported only for canonical encodings: the objdump text of the original bytes at the witness, assembled by GNU as, yields exactly those bytes (a criterion that does not look at the rendering under test). Arbiter level (labelled): at one witness per operand shape, for instructions a compiler emits, GNU as must accept the rendering in the matching syntax mode and objdump must read its encoding as the same instruction as the original bytes.',
         note='Trusted: z3, proxies, render mode (core.render_number; digit-string <-> integer conversion not modelled), GNU as 2.40 as canonicity filter. Bounds: thin ModRM slice, prefix sets (), (66) [+ (67) thorough], quick samples rows by seed.',
         design='5/C09 + 9', engine='E2'),
     'C10': dict(
